@@ -196,7 +196,8 @@ def features(rec):
     exported = {a for a, _, _, _ in g["evm"]["accounts"]}
     if any(a not in exported for a, _ in s["evm"]["storage"]):
         f.add("x:codeless-storage")
-    if o["md1"] and any(m != dm for (_, m), (_, _, _, dm) in zip(o["md1"], [t for t in o["tables"]["tfparse"] if t[0] in {d for d, _ in o["md1"]}])):
+    defmd = {t[0]: t[3] for t in o["tables"]["tfparse"]}
+    if any(m != defmd.get(d) for d, m in o["md1"]):
         f.add("x:custom-bank-metadata")
     return f
 
@@ -216,7 +217,9 @@ def classify(rec):
                     ("votes", g["oracle"]["votes"]), ("rewards", g["oracle"]["rewards"]), ("feeders", g["oracle"]["feeders"])):
         if l:
             ks.append("exported:" + name)
-    tp = {t[0]: t[1] for t in rec["obs"]["tables"]["tfparse"]}
+    st = rec["obs"]["s1"]
+    if len(st["oracle"]["pairs"]) != len(st["oracle"]["whitelist"]) or set(st["oracle"]["pairs"]) != set(st["oracle"]["whitelist"]):
+        ks.append("state:whitelist-edit-pending")
     ks.append("import:" + ("ok" if rec["obs"]["import_ok"] else "panic"))
     ks.append("rejected_ops=%d" % min(rec.get("failed_ops", 0), 9))
     return ks
@@ -310,9 +313,34 @@ def model_search(chk):
 MANIFEST = {
     "level_claimed": {
         "category": "proof",
-        "text": "filled in at the end",
+        "text": ("Coq theorems over executable models of ExportGenesis/InitGenesis of all seven custom modules "
+                 "(sudo, inflation, epochs, oracle, tokenfactory, devgas, evm incl. code, storage, FunToken mappings and their "
+                 "index key spaces): C20_app_roundtrip (composed over the product of modules, for every well-formed state, any "
+                 "import height/time): the export initialises a fresh chain, a second export equals the first except that epoch "
+                 "start heights are the import height, and the imported state equals the original on every persistent "
+                 "collection outside an explicit exception list that is part of the statement (oracle CreatedBlock/timestamps "
+                 "and price snapshots re-based, RewardsID re-derived but proved fresh, orphan bytecode, storage of code-less "
+                 "accounts, unset sequences defaulting to 1); per-module theorems C20_<module>_roundtrip; refutations for the "
+                 "two pre-fix genesis formulas (stale RewardsID, token-factory bank metadata reset). Tie to /repo on every run: "
+                 "(a) generated facts — every collections.New* call of the seven keepers, the GenesisState fields, which of them "
+                 "InitGenesis reads / ExportGenesis fills, and the two formulas the model is parameterised by — with the "
+                 "obligation that every persistent collection is carried by a used genesis field, derived, or on the exception "
+                 "list; (b) correspondence — generated state-building histories on the real app (contracts, self-destructs, "
+                 "FunTokens both ways, tf denoms/hand-over/metadata, sudoers, inflation, epochs, fee shares, pending oracle "
+                 "votes/prevotes/rewards) -> ExportAppStateAndValidators -> fresh InitChain -> second export, where the model's "
+                 "export/init must reproduce the dumped states and exports exactly, every dumped state must satisfy the "
+                 "theorems' well-formedness hypothesis, and the proved-sound predicate Pb (exports, states, raw KV digests, "
+                 "sampled eth_call/balance/sequence queries, a post-import reward allocation) is evaluated on the observed "
+                 "round trip."),
         "design_ref": "DESIGN.md §5 C20",
     },
-    "level_note": "",
-    "technique": "Coq proof over executable genesis models + generated keeper/genesis facts + differential round trips on the real app",
+    "level_note": ("Theorems quantify over well-formed states; that reachable states are well-formed is checked on every "
+                   "dumped implementation state, not proved. One boundary of that hypothesis is reachable and replayed on the "
+                   "code: on a chain whose own genesis had an empty oracle whitelist, between a sudo whitelist edit and the "
+                   "period end, the second export gains the pairs (C20_oracle_pairs_boundary). x/auth and x/bank genesis "
+                   "round trips are observed, not modelled; hashes/ids/parsing are Go-computed lookup tables; reward "
+                   "allocations and fee shares are driven through the keeper API. Trusted: Coq kernel + vm_compute, the go/ast "
+                   "extractor harness/gen/c20, the dump/canonicalisation code harness/c20/c20_dump_test.go."),
+    "technique": ("Coq proof (sorted-map extensionality, fold invariants) over executable genesis models + generated "
+                  "keeper/genesis facts + differential export/import round trips on the real app"),
 }
